@@ -47,7 +47,11 @@ Forms == <<
   F("p.c[!m u=w !g]",    "p",   "",  <<"c">>,      <<<<"u", "w">>>>,           NOTEXT,               FALSE, FALSE),
   F("x{one\ntwo\n}",     "x",   "",  <<>>,         <<>>,                       <<"one", "two", "">>, FALSE, FALSE),     \* a final line break is followed by a last, empty line
   F("em{note\n}",        "em",  "",  <<>>,         <<>>,                       <<"note", "">>,       FALSE, FALSE),
-  F("p{a\n\nb}",         "p",   "",  <<>>,         <<>>,                       <<"a", "", "b">>,     FALSE, FALSE) >>     \* a blank line is a line
+  F("p{a\n\nb}",         "p",   "",  <<>>,         <<>>,                       <<"a", "", "b">>,     FALSE, FALSE),       \* a blank line is a line
+  \* names that are pieces of the word div are names like any other (27-29)
+  F("i.fa.fa-home",      "i",   "",  <<"fa", "fa-home">>, <<>>,                NOTEXT,               FALSE, FALSE),
+  F("d#k",               "d",   "k", <<>>,         <<>>,                       NOTEXT,               FALSE, FALSE),
+  F("v.c{t}",            "v",   "",  <<"c">>,      <<>>,                       <<"t">>,              FALSE, FALSE) >>
 FormKey(k) == "F" \o ToString(k)
 KeyIdx(key) == CHOOSE k \in 1..Len(Forms) : FormKey(k) = key
 
